@@ -292,14 +292,23 @@ def rule_h1(chk, prog, rule="H1"):
         dst_w = pretty_sig(resolve_place(d, op_base(wa[0].args[0]))[0] or "")
         dst_f = pretty_sig(resolve_place(d, op_base(fl[0].args[0]))[0] or "")
         data = d.trace(op_base(wa[0].args[1]))
-        from_buf = any(k == "call" and info is buf[0] for k, info in data) or (d.root_name(op_base(wa[0].args[1])) == d.root_name(buf[0].dest[0]))
-        ok = src != dst_w and dst_w == dst_f and from_buf
+        # (the read-ahead may be looked at more than once -- `from.buffer().len()` and `write_all(from.buffer())` -- as long as every
+        # look is at the same stream)
+        srcs = set(pretty_sig(resolve_place(d, op_base(c_.args[0]))[0] or "") for c_ in buf)
+        from_buf = any(k == "call" and any(info is c_ for c_ in buf) for k, info in data) or (d.root_name(op_base(wa[0].args[1])) == d.root_name(buf[0].dest[0]))
+        ok = src != dst_w and dst_w == dst_f and from_buf and len(srcs) == 1
         why = "buffer(%s) -> write_all(%s) -> flush(%s)" % (src, dst_w, dst_f)
         # flush on every non-error path to return
         resid = [c.bb for c in d.calls if RESIDUAL.search(c.path or "")]
         if d.reach_from([0], avoid=[x.bb for x in fl] + resid) & set(d.returns()):
             ok = False
             why += "; a path returns without flush"
+        # ... and the flush comes after the write: what write_all put into the BufWriter has to leave it before the buffered stream is
+        # unwrapped (a flush in front of the write leaves exactly the forwarded bytes behind)
+        for w_ in wa:
+            if d.reach_from(d.succ[w_.bb], avoid=[x.bb for x in fl] + resid) & set(d.returns()):
+                ok = False
+                why += "; after write_all a path returns without flush"
     chk.instance(rule, "%s:%s" % (d.file, d.line), "drain_buffers writes from.buffer() to `to` and flushes it", ok, why)
     if not ok:
         chk.finding(rule, d.key, "drain-shape", "", "%s:%s" % (d.file, d.line),
